@@ -229,18 +229,33 @@ class CFG:
         """local -> list of definitions: ('assign', bb, idx, stmt) | ('call', bb, term) | ('yield', bb, term)
         Only whole-local definitions (no projection) are listed under 'whole'; partial writes under 'part'."""
         if self._defs is None:
-            d = defaultdict(lambda: {"whole": [], "part": []})
+            d = defaultdict(lambda: {"whole": [], "part": [], "mut": []})
+            mutref = {}   # temp local -> base local it mutably borrows (`_t = &mut place`)
             for i, b in enumerate(self.blocks):
                 for j, s in enumerate(b["st"]):
                     if "lhs" in s:
                         lhs = s["lhs"]
                         key = "whole" if len(lhs) == 1 else "part"
                         d[lhs[0]][key].append(("assign", i, j, s))
+                        rv = s.get("rv")
+                        if rv and rv["r"] == "ref" and rv.get("mut") and len(lhs) == 1:
+                            mutref[lhs[0]] = rv["place"][0]
+                        elif rv and rv["r"] == "use" and len(lhs) == 1:
+                            p = op_place(rv["op"])
+                            if p is not None and len(p) == 1 and p[0] in mutref:
+                                mutref[lhs[0]] = mutref[p[0]]
+            for i, b in enumerate(self.blocks):
                 t = b["term"]
                 if t and t["t"] == "call":
                     dest = t["dest"]
                     key = "whole" if len(dest) == 1 else "part"
                     d[dest[0]][key].append(("call", i, t))
+                    # out-parameter idiom: a call receiving `&mut x` may store into x (kept apart from whole/part so that
+                    # single-definition reasoning about temporaries is unaffected; used by the origin closure only)
+                    for a in t["args"]:
+                        p = op_place(a)
+                        if p is not None and len(p) == 1 and p[0] in mutref:
+                            d[mutref[p[0]]]["mut"].append(("callmut", i, t))
                 if t and t["t"] == "yield":
                     ra = t["resume_arg"]
                     d[ra[0]]["whole" if len(ra) == 1 else "part"].append(("yield", i, t))
@@ -390,10 +405,17 @@ class CFG:
             d = self.defs.get(l)
             if not d:
                 continue
-            for kind in ("whole", "part"):
-                for df in d[kind]:
+            for kind in ("whole", "part", "mut"):
+                for df in d.get(kind, ()):
                     if df[0] == "assign":
                         self._rv_sources(df[3]["rv"], df[1], out, work, l)
+                    elif df[0] == "callmut":
+                        t = df[2]
+                        out.add(("mutated-by", t.get("rp") or t.get("p"), df[1]))
+                        for a in t["args"]:
+                            p = op_place(a)
+                            if p is not None and p[0] != l:
+                                self._op_sources(a, out, work)
                     elif df[0] == "call":
                         t = df[2]
                         if transparent(t):
@@ -449,6 +471,65 @@ class CFG:
                 self._op_sources(o, out, work)
         else:
             out.add(("other", rv.get("s", r)))
+
+    def control_origins(self, bb, transparent=None, skip=None):
+        """Origins of the operands of every switch that block bb is control-dependent on (bb is dominated by the
+        switch and reachable from only some of its targets).  skip(switch_bb) excludes switches (e.g. the variant
+        dispatch itself when the question is what happens *inside* an arm)."""
+        out = set()
+        for s in sorted(self.reach0):
+            t = self.blocks[s]["term"]
+            if not t or t["t"] != "switch" or s == bb or not self.dominates(s, bb):
+                continue
+            if skip is not None and skip(s):
+                continue
+            tg = self.succ[s]
+            if len(tg) < 2:
+                continue
+            hits = 0
+            for x in tg:
+                r = self.reachable_from([x], include_start=True, avoid=[y for y in tg if y != x])
+                if bb in r:
+                    hits += 1
+            if hits == len(tg):
+                continue
+            p = op_place(t["on"])
+            if p is not None:
+                out |= self.origins(p[0], transparent)
+                self._place_sources(p, out, [])
+        return out
+
+    def op_control_origins(self, op, transparent=None, skip=None):
+        """Control origins of every definition of the operand's local (for values chosen by a `match` on something)."""
+        p = op_place(op)
+        if p is None:
+            return set()
+        q = self.canon(p)
+        out = set()
+        d = self.defs.get(q[0])
+        if not d:
+            return out
+        dbs = sorted({df[1] for df in d["whole"] if df[1] in self.reach0})
+        if len(dbs) < 2:
+            return out      # a single definition is not *chosen* by any branch (early exits do not select values)
+        for s in sorted(self.reach0):
+            t = self.blocks[s]["term"]
+            if not t or t["t"] != "switch" or not all(self.dominates(s, b) for b in dbs):
+                continue
+            if skip is not None and skip(s):
+                continue
+            tg = self.succ[s]
+            hosts = set()
+            for x in tg:
+                r = self.reachable_from([x], include_start=True, avoid=[y for y in tg if y != x])
+                if any(b in r for b in dbs):
+                    hosts.add(x)
+            if len(hosts) >= 2:
+                sp = op_place(t["on"])
+                if sp is not None:
+                    out |= self.origins(sp[0], transparent)
+                    self._place_sources(sp, out, [])
+        return out
 
     def op_origins(self, op, transparent=None):
         p = op_place(op)
